@@ -13,6 +13,13 @@ Correspondence (model = the very definitions the theorems are about, executed by
   links.check_y  checkY / getLinkDomain model vs utils.check_y / utils.get_link_domain
   links.fit      checkY model vs the exception raised by GAM(distribution, link).fit and the six model classes,
                  and whether anything was fitted
+  dtype axis (the model is a function of the VALUES; the same exact values are handed over in float64/32/16, int8..64,
+  uint8..64, bool, object arrays of Python ints, lists — integer dtypes have wrap-around arithmetic of their own):
+  links.dtype_values   Float model vs link / mu / gradient evaluated on every other carrier of the same values (1e-11)
+  links.check_y_dtype  checkY model on the exact values vs utils.check_y on every dtype that carries them (1-D and column)
+  links.entry          checkY model vs fit / gridsearch (fresh and already fitted model), score, loglikelihood,
+                       deviance_residuals, accuracy: ValueError before the optimiser is entered and with the model
+                       untouched iff rejected; accepted targets give the result of the float64 array of the same values
 Oracle (real code only, NumPy only):
   links.oracle   round trips both ways, central-difference derivative vs gradient, strict monotonicity on
                  sorted grids; closed-domain rejection rule written from the property text.
@@ -33,6 +40,7 @@ LINK_NAMES = ['identity', 'log', 'logit', 'inverse', 'inv_squared']
 LEVELS = [1, 2, 5, 17]
 INCREASING = {'identity': True, 'log': True, 'logit': True, 'inverse': False, 'inv_squared': False}
 FNS = ['link', 'mu', 'grad']
+CALL_ERRORS = []
 # (function, link) pairs whose model value is an exact rational (no exp/log/sqrt)
 RATIONAL = {('grad', k) for k in LINK_NAMES} | {('link', 'identity'), ('link', 'inverse'), ('link', 'inv_squared'),
                                                  ('mu', 'identity'), ('mu', 'inverse')}
@@ -48,9 +56,16 @@ def _impl(link, fn):
 def _call(link, fn, xs, dist):
     """evaluate the real code on a float array, silencing IEEE warnings; returns float64 array"""
     a = np.array(xs, dtype=float)
-    with np.errstate(all='ignore'):
-        out = _impl(link, fn)(a, dist)
-    return np.asarray(out, dtype=float) * np.ones_like(a) if np.ndim(out) == 0 else np.asarray(out, dtype=float)
+    try:
+        with np.errstate(all='ignore'):
+            out = _impl(link, fn)(a, dist)
+        out = np.asarray(out, dtype=float) * np.ones_like(a) if np.ndim(out) == 0 else np.asarray(out, dtype=float)
+        if out.shape != a.shape:
+            raise ValueError('shape %r' % (out.shape,))
+        return out
+    except Exception as e:  # noqa  (a broken library must give a verdict, not a harness crash: NaN never equals the model)
+        CALL_ERRORS.append('%s.%s: %s' % (type(link).__name__, fn, type(e).__name__))
+        return np.full(a.shape, math.nan)
 
 
 def _cls(v):
@@ -276,6 +291,12 @@ def oracle_monotone(link, dist, name, L, means):
     inc = d > 0
     i = int(np.argmax(inc != inc[0])) if (inc != inc[0]).any() else int(np.argmax(d == 0))
     return dict(kind='link not strictly monotone', m0=grid[i], m1=grid[i + 1], link0=float(v[i]), link1=float(v[i + 1]))
+
+
+def _levels_of(dist):
+    """number of trials the logit link works with: `levels` of a binomial, one for every other distribution"""
+    lv = getattr(dist, 'levels', 1)
+    return lv if isinstance(lv, int) and not isinstance(lv, bool) and lv >= 1 else 1
 
 
 def oracle_reject(name, L, ys):
@@ -509,14 +530,15 @@ def run_check_y(ctx, pg):
         for L in LEVELS:
             rng = ctx.subrng('check_y', name, L)
             dists = [('binomial(levels=%d)' % L, BinomialDist(levels=L))]
-            if name != 'logit':
-                dn = sorted(DISTRIBUTIONS)[LEVELS.index(L) % len(DISTRIBUTIONS)]
-                dists.append((dn, DISTRIBUTIONS[dn]()))
+            dn = sorted(DISTRIBUTIONS)[LEVELS.index(L) % len(DISTRIBUTIONS)]
+            dists.append((dn, DISTRIBUTIONS[dn]()))
             for arr in target_arrays(rng, name, L, count, lits):
                 shape = rng.choice(['1d', '1d', '2d', 'list', 'int']) if arr else '1d'
                 for dname, dist in dists:
-                    jobs.append(('y', name, L, dname, dist, arr, shape))
-                    ops.append('C07 checky %s %d %s' % (name, L, ' '.join(_xr(v) for v in arr)))
+                    # the logit link of a distribution without `levels` (every one but the binomial) has one trial
+                    Le = _levels_of(dist) if name == 'logit' else L
+                    jobs.append(('y', name, Le, dname, dist, arr, shape))
+                    ops.append('C07 checky %s %d %s' % (name, Le, ' '.join(_xr(v) for v in arr)))
             jobs.append(('domain', name, L, dists[0][0], dists[0][1], None, None))
             ops.append('C07 domain %s %d' % (name, L))
     outs = ctx.driver.run(ops)
@@ -640,12 +662,6 @@ def run_fit(ctx, pg):
             continue
         case = dict(call='%s.fit(X, y)' % label, link=name, distribution=dn, levels=L, target=tag, pos=pos,
                     X='np.linspace(0,1,%d)[:,None]' % n, y=[repr(v) for v in y], y_bits=[common.f2bits(v) for v in y])
-        if name == 'logit' and dn != 'binomial' and impl == 'AttributeError':
-            # the logit link reads dist.levels, which only BinomialDist has: every fit of such a model raises
-            # AttributeError in check_y (also for valid targets).  Outside the quantifier of C07 ("logit (any
-            # number of binomial levels)"); reported, not counted as a failing input of this property.
-            ctx.count('suspected-defect', 'logit link with %s distribution: AttributeError (no dist.levels) instead of %s' % (dn, model))
-            continue
         impl2 = _fit_outcome(make, X, ya)
         want = 'reject-before-fit' if oracle_reject(name, L, y) else 'validated'
         if impl2 != want:
@@ -746,14 +762,14 @@ def run_dtype_values(ctx, pg):
     from pygam.links import LINKS
     from pygam.distributions import BinomialDist
     st = 'links.dtype_values'
-    ctx.stream(st, 'Link.link / mu / gradient on float32/16, int8..64, uint8..64, bool arrays vs the Float model at the same '
-                   'values (precision of the result dtype)')
+    ctx.stream(st, 'Link.link / mu / gradient on float32/16, int8..64, uint8..64, bool, object arrays and lists vs the Float '
+                   'model at the same values (bit-equal or 1e-11 relative)')
     jobs, ops = [], []
     for name in LINK_NAMES:
         for L in (LEVELS_DT if name == 'logit' else [1]):
             for fn in FNS:
                 pts = dtype_points(name, L, fn)
-                for dt in ALL_DT[1:-2]:             # arrays with a numeric dtype other than float64
+                for dt in ALL_DT[1:]:               # every carrier other than a float64 array
                     vals = [v for v in pts if _representable(v, dt)]
                     if dt == 'bool' and fn != 'mu' and name != 'identity':
                         vals = [v for v in vals if v != 0]
@@ -788,56 +804,34 @@ def run_dtype_values(ctx, pg):
                 ok, iv = False, got
             else:
                 iv = float(got[i])
-                # working precision: NumPy evaluates log / exp / power of 8-bit (16-bit) integers and bool in float16 (float32),
-                # also where the final result is wider (value-based casting of `levels`)
-                wp = np.dtype({'float16': 'float16', 'int8': 'float16', 'uint8': 'float16', 'bool': 'float16',
-                               'float32': 'float32', 'int16': 'float32', 'uint16': 'float32'}.get(dt, 'float64'))
-                if rd.kind == 'f' and rd.itemsize < wp.itemsize:
-                    wp = rd
-                if rd.kind != 'f' or name == 'identity':
-                    wp = np.dtype('float64')        # integer results (identity link): exact
-                fi = np.finfo(wp)
-                tol = {2: 4e-3, 4: 5e-7}.get(wp.itemsize, TOL)
-                if fn == 'mu' and name in ('log', 'logit') and x > math.log(float(fi.max) / L) - 1:
-                    ctx.count('dtype_values: exp overflows the working precision (not compared)', str(wp))
-                    continue
-                if math.isfinite(mv) and abs(mv) > float(fi.max) / 4:
-                    ctx.count('dtype_values: value beyond the range of the working precision (not compared)', str(wp))
-                    continue
+                # the links convert their argument to float64 first (identity returns it / ones of its dtype: exact), so the
+                # float64 model is the reference for every dtype, at the tolerance of links.values
+                tol = TOL
                 scale = 0.0
                 if name == 'logit' and fn == 'link' and 0 < x < L:
                     scale = abs(math.log(x)) + abs(math.log(L - x))
                 ok = _same(iv, mv, scale, tol=tol)
-                if not ok and wp.itemsize < 8 and math.isfinite(mv) and math.isfinite(iv):
-                    # results (and intermediate powers / exponentials) in the subnormal range of the working precision
-                    ok = abs(iv - mv) <= tol * (abs(mv) + scale) + 4 * L * float(fi.smallest_subnormal)
             if ok:
                 continue
-            if name == 'logit' and fn == 'grad' and (dt in DT_INT or dt in DT_UINT or dt == 'bool') and not isinstance(iv, str):
-                # UNCHANGED TREE: LogitLink.gradient computes mu * (levels - mu) in the integer dtype of mu, which wraps
-                # around for small dtypes (int8: levels >= 23).  Reported, not counted as a failing input (see DESIGN / final
-                # report); recognised by the wrap itself, every other deviation is still reported.
-                a = _mk([v], dt)
-                with np.errstate(all='ignore'):
-                    wrapped = np.asarray(a * (L - a)).astype(object)[0]
-                if int(wrapped) != int(v) * (L - int(v)):
-                    ctx.count('suspected-defect', 'LogitLink.gradient on integer-dtype mu: mu*(levels-mu) wraps around in %s (levels=%d)' % (dt, L))
-                    continue
+            tol = TOL
             got2, rd2 = ev([v])
             iv2 = got2 if isinstance(got2, str) else float(got2[0])
             if not isinstance(iv2, str) and not isinstance(iv, str) and _same(iv2, mv, 0.0, tol=10 * tol):
                 continue
-            ref = float(_call(link, fn, [x], dist)[0])        # the real code on the float64 version of the same value
-            case = dict(call='pygam.links.LINKS[%r]().%s(np.array([%s], dtype=%r), BinomialDist(levels=%d))' % (
-                name, {'link': 'link', 'mu': 'mu', 'grad': 'gradient'}[fn], common.q2s(v), dt, L),
+            try:
+                ref = float(_call(link, fn, [x], dist)[0])    # the real code on the float64 version of the same value
+            except Exception:  # noqa
+                ref = math.nan
+            case = dict(call='pygam.links.LINKS[%r]().%s(%s, BinomialDist(levels=%d))' % (
+                name, {'link': 'link', 'mu': 'mu', 'grad': 'gradient'}[fn],
+                ('[%s]' % common.q2s(v)) if dt == 'list' else 'np.array([%s], dtype=%r)' % (common.q2s(v), dt), L),
                 link=name, levels=L, fn=fn, dtype=dt, x=common.q2s(v))
             if _same(ref, mv, 0.0, tol=10 * TOL) or (isinstance(iv2, str)):
                 ctx.fail(st, dict(link=name, levels=L, fn=fn, dtype=dt), case,
                          observed=dict(value=iv2 if isinstance(iv2, str) else repr(iv2), result_dtype=str(rd2)),
                          expected=dict(float64_evaluation=repr(ref), model=repr(mv)),
                          oracle='the link / inverse link / gradient at a valid argument does not depend on the dtype that '
-                                'carries it (precision of the result dtype): the float64 evaluation satisfies round trip and '
-                                'derivative, this one differs from it')
+                                'carries it: the float64 evaluation satisfies round trip and derivative, this one differs from it')
             else:
                 ctx.disagree(st, case, repr(iv2), repr(mv), 'value differs from the Float model (float64 evaluation differs too)')
 
@@ -878,15 +872,17 @@ def run_check_y_dtype(ctx, pg):
         for L in LEVELS:
             rng = ctx.subrng('check_y_dtype', name, L)
             dists = [('binomial(levels=%d)' % L, BinomialDist(levels=L))]
-            if name != 'logit':
-                dn = sorted(DISTRIBUTIONS)[(LEVELS.index(L) + 2) % len(DISTRIBUTIONS)]
-                dists.append((dn, DISTRIBUTIONS[dn]()))
+            dn = sorted(DISTRIBUTIONS)[(LEVELS.index(L) + 2) % len(DISTRIBUTIONS)]
+            dists.append((dn, DISTRIBUTIONS[dn]()))
             for arr in dtype_target_arrays(rng, name, L, count, lits):
                 cs = _carriers(arr)
                 if not cs:
                     continue
-                ops.append('C07 checky %s %d %s' % (name, L, ' '.join(common.q2s(v) for v in arr)))
-                jobs.append((name, L, dists, arr, cs, rng.random() < 0.25))
+                column = rng.random() < 0.25
+                for dname, dist in dists:
+                    Le = _levels_of(dist) if name == 'logit' else L      # logit of a non-binomial distribution: one trial
+                    ops.append('C07 checky %s %d %s' % (name, Le, ' '.join(common.q2s(v) for v in arr)))
+                    jobs.append((name, Le, [(dname, dist)], arr, cs, column))
     outs = ctx.driver.run(ops)
     for (name, L, dists, arr, cs, column), out in zip(jobs, outs):
         link = LINKS[name]()
@@ -1019,8 +1015,6 @@ def run_entry(ctx, pg):
     configs = []
     for name in LINK_NAMES:
         for dn in sorted(DISTRIBUTIONS):
-            if name == 'logit' and dn != 'binomial':
-                continue                          # AttributeError for every target (see links.fit)
             configs.append((name, dn, 1, 'GAM(%s,%s)' % (dn, name),
                             (lambda dn=dn, name=name: GAM(s(0, n_splines=4), distribution=dn, link=name, **kw))))
         for L in LEVELS[1:] + [300]:
@@ -1136,19 +1130,28 @@ STREAMS = [('links.values', run_values), ('links.special', run_special), ('links
 
 def run(ctx, only=None):
     pg = common.import_pygam()
+    del CALL_ERRORS[:]
     ctx.extra['rule'] = ('full product link x levels{1,2,5,17} x {link,mu,gradient}; points = log-uniform magnitudes 1e-12..1e12 '
                          '(+1e-100..1e100), dyadic grids, domain boundaries and +-1 ulp, literals harvested from links.py; '
                          'target arrays = inside / boundary / +-1ulp outside / specials / empty x array shape; every link x '
                          'distribution and the six model classes for fit.  distinct = distinct (stream, link, levels, function, '
                          'argument bits) resp. (model, target kind, position); identity-link cases and levels != 1 copies of '
-                         'links that ignore levels are counted as trivial')
+                         'links that ignore levels are counted as trivial.  dtype axis: exact integer / dyadic values (inside, '
+                         'boundary, levels+1, 2*levels(+1), -1, edges 127/128/255/256/.../2^64-1 of the integer dtypes, harvested '
+                         'literals) x every dtype / container that carries them exactly; entry points x fresh / fitted model x link '
+                         'x distribution (quick: one dtype per family float / signed / unsigned / bool-object-list per case, '
+                         'thorough: full product); float64 copies are counted as trivial')
     ctx.assumptions.append('IEEE-754 special-value behaviour of NumPy (log, subtraction, division, power) is modelled by XR '
                            '(stream links.special ties it to NumPy on every run); rounding is not modelled')
     ctx.assumptions.append('x**-1.0, x**-2.0, x**-3.0, x**-0.5 are modelled as 1/x, 1/(x*x), 1/(x*x*x), 1/sqrt(x) '
                            '(equal over R on the domain; agreement with NumPy measured <= 5e-16 relative)')
+    ctx.assumptions.append('entry into the optimiser is observed through a recording subclass override of GAM._pirls '
+                           '(observation only; if that hook is inert the run says so and falls back to coef_ / statistics_ / logs_)')
     for nm, f in STREAMS:
         if only is None or nm == only or (only == 'links.oracle' and nm == 'links.values'):
             f(ctx, pg)
+    for k in CALL_ERRORS:
+        ctx.count('link function raised / returned a wrong shape on a float64 array (treated as NaN)', k)
 
 
 def replay(ctx, rp):
